@@ -13,10 +13,12 @@ from vf.vworld.base import Req, WS, Call, HandlerError
 
 class VInput:
     """wsgi.input that records every read."""
-    def __init__(self, data, req):
+    def __init__(self, data, req, short_first=None):
         self.data = data
         self.pos = 0
         self.req = req
+        self.short_first = short_first       # the first read returns at most this many bytes (a raw socket stream)
+        req.taken = 0
 
     def read(self, n=-1):
         if n is None or n < 0:
@@ -25,7 +27,11 @@ class VInput:
         else:
             self.req.reads.append(n)
             out = self.data[self.pos:self.pos + n]
+        if self.short_first is not None:
+            out = out[:self.short_first]
+            self.short_first = None
         self.pos += len(out)
+        self.req.taken += len(out)
         return out
 
 
@@ -230,7 +236,7 @@ class SyncWorld:
         return env
 
     def http(self, method, query, headers=None, body=b'', declared=None, chunks=None,
-             path='/engine.io/', host='h'):
+             path='/engine.io/', host='h', short_first=None):
         req = Req(len(self.reqs), method, query, dict(headers or {}), body)
         self.reqs.append(req)
         req.t_start = self.clock.now
@@ -240,7 +246,7 @@ class SyncWorld:
         env = self._environ(method, query, headers, path, host)
         if method in ('POST', 'PUT') or body or declared is not None:
             env['CONTENT_LENGTH'] = str(len(body) if declared is None else declared)
-        env['wsgi.input'] = VInput(body, req)
+        env['wsgi.input'] = VInput(body, req, short_first)
         w = self
 
         def worker():
